@@ -39,6 +39,9 @@ FIXED = [
              "total_mismatch:after_caller_mutated_result"],
      "fix: nowrap history was the very dict handed back by the first call",
      "caller pops 'lo' from the first net_io_counters(pernic=True) result; the counter wraps; the next call goes backwards"),
+    ("C10", ["older_snapshot_processed_after_newer_one_counts_as_wrap"],
+     "fix: concurrent nowrap callers could count an older snapshot as a wrap",
+     "thread A samples, thread B samples later and records first: A's numbers look like wraps, every later result is inflated"),
     ("C11", ["unix_path_with_space_lost"], "fix: net_connections() returned an empty laddr for UNIX sockets", "UNIX socket bound to a path with a space"),
     ("C11", ["unix_shared_between_processes_holder_lost"], "fix: net_connections() reported only one holder", "UNIX socket inherited through fork()"),
     ("C12", ["cmdline_cr_translated_to_lf", "environ_cr_translated_to_lf"], "fix: cmdline() and environ() turned carriage returns",
